@@ -141,7 +141,7 @@ func treeFromAny(v any) tree {
 	case float64:
 		return leaf("num", canonFloat(tv))
 	case float32:
-		return leaf("num", canonFloat(float64(tv)))
+		return leaf("num", canon32(tv))
 	case string:
 		return leaf("str", tv)
 	case time.Time:
@@ -167,7 +167,9 @@ func treeFromAny(v any) tree {
 		return leaf("num", strconv.FormatInt(rv.Int(), 10))
 	case reflect.Uint, reflect.Uint8, reflect.Uint16, reflect.Uint32, reflect.Uint64:
 		return leaf("num", strconv.FormatUint(rv.Uint(), 10))
-	case reflect.Float32, reflect.Float64:
+	case reflect.Float32:
+		return leaf("num", canon32(float32(rv.Float())))
+	case reflect.Float64:
 		return leaf("num", canonFloat(rv.Float()))
 	case reflect.String:
 		return leaf("str", rv.String())
@@ -315,6 +317,14 @@ var encoders = []encoder{
 		}
 		return jsonOut(buf.String())
 	}},
+	// io.Writer entry points with tiny write limits: flushing in the middle of a struct must not change the document
+	{"oj.Write/wl1", true, func(x, px any, o *ojg.Options) (string, *tree, error) { return writeTo(o, 1, func(w io.Writer, o2 *ojg.Options) error { return oj.Write(w, x, o2) }, false) }},
+	{"oj.Write/wl40", true, func(x, px any, o *ojg.Options) (string, *tree, error) { return writeTo(o, 40, func(w io.Writer, o2 *ojg.Options) error { return oj.Write(w, px, o2) }, false) }},
+	{"sen.Write", false, func(x, px any, o *ojg.Options) (string, *tree, error) { return writeTo(o, 0, func(w io.Writer, o2 *ojg.Options) error { return sen.Write(w, x, o2) }, true) }},
+	{"sen.Write/wl7", false, func(x, px any, o *ojg.Options) (string, *tree, error) { return writeTo(o, 7, func(w io.Writer, o2 *ojg.Options) error { return sen.Write(w, px, o2) }, true) }},
+	{"pretty.WriteJSON", true, func(x, px any, o *ojg.Options) (string, *tree, error) { return writeTo(o, 0, func(w io.Writer, o2 *ojg.Options) error { return pretty.WriteJSON(w, x, o2) }, false) }},
+	{"pretty.WriteJSON/wl7", true, func(x, px any, o *ojg.Options) (string, *tree, error) { return writeTo(o, 7, func(w io.Writer, o2 *ojg.Options) error { return pretty.WriteJSON(w, x, o2) }, false) }},
+	{"pretty.WriteSEN/wl7", false, func(x, px any, o *ojg.Options) (string, *tree, error) { return writeTo(o, 7, func(w io.Writer, o2 *ojg.Options) error { return pretty.WriteSEN(w, x, o2) }, true) }},
 	{"sen.String", false, func(x, px any, o *ojg.Options) (string, *tree, error) { return senOut(sen.String(x, o)) }},
 	{"sen.String/ptr", false, func(x, px any, o *ojg.Options) (string, *tree, error) { return senOut(sen.String(px, o)) }},
 	{"pretty.JSON", true, func(x, px any, o *ojg.Options) (string, *tree, error) { return jsonOut(pretty.JSON(x, o)) }},
@@ -334,6 +344,22 @@ var encoders = []encoder{
 // errUnparsed: the SEN text is not read back by sen.Parse. Whether SEN output re-reads is C10's property, not C15's:
 // such outputs are recorded with r = "unparsed" and left out of the judgement.
 var errUnparsed = fmt.Errorf("sen output does not parse back")
+
+// writeTo runs an io.Writer entry point with the given WriteLimit (0 = default) and collects everything written
+func writeTo(o *ojg.Options, limit int, fn func(w io.Writer, o2 *ojg.Options) error, isSen bool) (string, *tree, error) {
+	o2 := *o
+	if limit > 0 {
+		o2.WriteLimit = limit
+	}
+	var buf bytes.Buffer
+	if err := fn(&buf, &o2); err != nil {
+		return "", nil, err
+	}
+	if isSen {
+		return senOut(buf.String())
+	}
+	return jsonOut(buf.String())
+}
 
 func senOut(s string) (string, *tree, error) {
 	if s == "" {
